@@ -311,7 +311,7 @@ int a_vec_store(a_vec *ctx, a_size idx, void *ptr, a_size num, int (*copy)(void 
 int a_vec_erase(a_vec *ctx, a_size idx, a_size num, void (*dtor)(void *))
 {
     int rc = A_SUCCESS;
-    a_size const n = idx + num;
+    a_size const n = idx + num < idx ? ~(a_size)0 : idx + num;
     if (dtor && ctx->num_)
     {
         a_size i = (n <= ctx->num_ ? n : ctx->num_);
